@@ -1281,24 +1281,39 @@ def rule_err_swallow(cx, tier):
         du = cx.du(fn)
         exits = set(cfg.exits)
         for c in ex:
-            # the Err edge
-            err_targets = set()
+            # the Err edge: the first test (on every path) of the discriminant of the call's result, or of a value the
+            # result was moved into (`let r = execute(); ..; match r`, also when another branch assigns the same local
+            # an `Ok(..)`); later re-reads of the discriminant are drop elaboration, on paths the error never takes
+            derived = {c.dest[0]}
+            grew = True
+            while grew:
+                grew = False
+                for b in fn.blocks:
+                    if b.cleanup:
+                        continue
+                    for st in b.stmts:
+                        if st[0] == "a" and not st[1][1] and st[1][0] not in derived and st[2][0] == "use":
+                            pl = op_place(st[2][1])
+                            if pl is not None and not pl[1] and pl[0] in derived:
+                                derived.add(st[1][0])
+                                grew = True
+            cands = []
             for b in fn.blocks:
-                if b.cleanup or b.term[0] != "switch":
+                if b.cleanup or b.term[0] != "switch" or b.idx not in cfg.reachable_after(c.bb):
                     continue
                 l = op_base(b.term[1])
                 d = du.single_def(l) if l is not None else None
-                if d is not None and d[2] == "assign" and d[3][0] == "discr" and d[3][1][0] == c.dest[0] and not d[3][1][1]:
-                    # only the user's own test, right after the call: drop elaboration re-reads the discriminant later,
-                    # on paths the error never takes
-                    if b.idx != c.target and not (c.target is not None and fn.blocks[c.target].term[0] == "goto"
-                                                  and fn.blocks[c.target].term[1] == b.idx):
-                        continue
-                    for v, tb in b.term[2]:
-                        if v == 1:
-                            err_targets.add(tb)
-                    if not any(v == 1 for v, _ in b.term[2]) and any(v == 0 for v, _ in b.term[2]):
-                        err_targets.add(b.term[3])
+                if d is not None and d[2] == "assign" and d[3][0] == "discr" and d[3][1][0] in derived and not d[3][1][1]:
+                    cands.append(b)
+            err_targets = set()
+            for b in cands:
+                if any(o.idx != b.idx and cfg.dominates(o.idx, b.idx) for o in cands):
+                    continue
+                for v, tb in b.term[2]:
+                    if v == 1:
+                        err_targets.add(tb)
+                if not any(v == 1 for v, _ in b.term[2]) and any(v == 0 for v, _ in b.term[2]):
+                    err_targets.add(b.term[3])
             if not err_targets:
                 continue
             n += 1
@@ -1363,4 +1378,315 @@ def rule_err_swallow(cx, tier):
                               f"the fallback's outcome and becomes catchable", fn.file, offending.line))
     r.analysed = {"nested_entries_with_an_error_edge": n}
     r.floor("nested interpreter entries with an error edge", n, 6)
+    return r
+
+
+# ---------------------------------------------------------------------------------------------
+# R-BARRIER-FRAME (C17, C06): the execution barrier goes on a frame that the call really pushed
+
+def rule_barrier_frame(cx, tier):
+    r = RuleResult("R-BARRIER-FRAME",
+                   "`frame_mut().execution_barrier = true` marks the *top* frame, so it must be the callee's: wherever "
+                   "KotoVm sets it, either the function pushed the frame itself (`push_frame` dominates the write and the "
+                   "function makes no call through `call_callable`), or the write lies on the 'call stack has grown' outcome "
+                   "of a comparison of `call_stack.len()` with its earlier value -- a native function, object or generator "
+                   "stored under a metakey pushes no frame, and the barrier would land on the caller's own frame")
+    from .narrow import Sym, guards, leaves_of, edge_side
+    INDIRECT = ("call_callable", "call_overridden_op_1", "call_overridden_op_2", "call_overridden_op_3")
+    n = 0
+    for fn in cx.F.fns.values():
+        if fn.crate.uname != "koto_runtime" or fn.derived or not fn.qual.startswith(VM):
+            continue
+        writes = []
+        for b in fn.blocks:
+            if b.cleanup:
+                continue
+            for st in b.stmts:
+                if st[0] == "a" and place_fields(st[1])[-1:] == ["execution_barrier"] and st[2][0] == "use" \
+                        and op_const(st[2][1]) is not None and op_int(st[2][1]) not in (0, False):
+                    writes.append(b.idx)
+        if not writes:
+            continue
+        cfg = cx.cfg(fn)
+        calls = fn.calls()
+        indirect = [c for c in calls if c.short.startswith(VM) and c.short[len(VM):] in INDIRECT]
+        pushes = [c for c in calls if c.short == VM + "push_frame"]
+        sym = Sym(cx, fn)
+        gs = [g for g in guards(cx, fn, sym) if g[2] in ("Eq", "Ne") and
+              any("len(self.call_stack)" in leaves_of(e) for e in (g[3], g[4]))]
+        for wb in writes:
+            n += 1
+            r.instances += 1
+            r.nontrivial += 1
+            verdict = None
+            if not indirect and any(cfg.dominates(c.bb, wb) for c in pushes):
+                verdict = "own push_frame"
+            for (gb, dest, opn, le, re_, cty) in gs:
+                side = edge_side(cx, fn, cfg, gb, dest, wb)
+                if (opn == "Eq" and side == "false") or (opn == "Ne" and side == "true"):
+                    verdict = "call stack has grown"
+            r.sample({"fn": fn.qual, "line": line_of(fn, wb), "verdict": verdict or "unguarded"})
+            if verdict is None:
+                r.add(Finding("R-BARRIER-FRAME", fn.qual, "barrier-without-frame-test",
+                              "the execution barrier is set after a call that may not have pushed a frame (native function, "
+                              "object, generator, `@call` map), with no test that `call_stack.len()` has grown: the barrier "
+                              "lands on the caller's own frame and the nested `execute_instructions()` runs the rest of the "
+                              "enclosing function (wrong results; `Empty call stack` panic for `@next`)",
+                              fn.file, line_of(fn, wb)))
+    r.floor("writes of execution_barrier = true in KotoVm", n, 4)
+    r.analysed = {"barrier_writes": n}
+    return r
+
+
+# ---------------------------------------------------------------------------------------------
+# R-UNPACK-ONCE (C06, C17): unpacked call arguments are not unpacked again when the call is forwarded
+
+def rule_unpack_once(cx, tier):
+    r = RuleResult("R-UNPACK-ONCE",
+                   "`unpack_packed_arguments` drains the registers that hold the packed-argument indices, so on every "
+                   "normal return `info.packed_arg_count` is 0 (the early return under the `== 0` test, or an assignment of "
+                   "0): `call_callable` forwards the same CallInfo to a map's `@call` function, and a second unpacking "
+                   "would index past the drained registers (panic)")
+    fn = cx.need_fn(VM + "unpack_packed_arguments")
+    cfg = cx.cfg(fn)
+    du = cx.du(fn)
+    from .narrow import Sym, guards, leaves_of, edge_side
+    # blocks that establish count == 0
+    zero_blocks = set()
+    for b in fn.blocks:
+        if b.cleanup:
+            continue
+        for st in b.stmts:
+            if st[0] == "a" and place_fields(st[1])[-1:] == ["packed_arg_count"] and st[2][0] == "use" and \
+                    op_const(st[2][1]) is not None and op_int(st[2][1]) == 0:
+                zero_blocks.add(b.idx)
+    sym = Sym(cx, fn)
+    eq_zero = []
+    for (gb, dest, opn, le, re_, cty) in guards(cx, fn, sym):
+        if opn in ("Eq", "Ne") and any(e == ("K", 0) for e in (le, re_)) and \
+                any(any("packed_arg_count" in x for x in leaves_of(e)) for e in (le, re_)):
+            eq_zero.append((gb, dest, opn))
+    require(eq_zero or zero_blocks, "R-UNPACK-ONCE: neither a `packed_arg_count == 0` test nor a reset found")
+    # writers of the count other than the reset: none may follow the reset
+    r.instances += 1
+    r.nontrivial += 1
+    bad = None
+    from .compiler import ret_class_of_block
+    # explore from entry avoiding the reset blocks and the `== 0` outcome of the test: reaching a non-error return is a
+    # violation (an error return abandons the call)
+    avoid = set(zero_blocks)
+    zero_edges = set()
+    for (gb, dest, opn) in eq_zero:
+        for b in fn.blocks:
+            from .narrow import _switch_outcomes
+            for (l, te, fe) in _switch_outcomes(cx, fn, b) or []:
+                if l == dest:
+                    for t in (te if opn == "Eq" else fe):
+                        zero_edges.add((b.idx, t))
+    seen = set()
+    work = [0]
+    while work and bad is None:
+        b = work.pop()
+        if b in seen or b in avoid:
+            continue
+        seen.add(b)
+        cls = ret_class_of_block(cx, fn, b)
+        if cls == "ok":
+            bad = b
+            break
+        if cls == "err":
+            continue
+        for s2 in cfg.succ[b]:
+            if (b, s2) not in zero_edges:
+                work.append(s2)
+    r.sample({"fn": fn.qual, "resets": len(zero_blocks), "zero_tests": len(eq_zero), "ok_return_without_reset": bad is not None})
+    if bad is not None:
+        r.add(Finding("R-UNPACK-ONCE", fn.qual, "ok-return-with-count-left",
+                      "unpack_packed_arguments can return Ok with `info.packed_arg_count` still non-zero after draining the "
+                      "packed-argument registers: call_callable forwards the CallInfo to a map's `@call` function, which "
+                      "unpacks again and indexes past the end of the register stack (`x(args...)` panics for any map with "
+                      "`@call`)", fn.file, line_of(fn, bad)))
+    # and the forwarding really happens: call_callable calls itself
+    cc = cx.need_fn(VM + "call_callable")
+    r.instances += 1
+    fwd = [c for c in cc.calls() if c.short == VM + "call_callable"]
+    r.analysed = {"resets": len(zero_blocks), "zero_tests": len(eq_zero), "forwarding_calls_in_call_callable": len(fwd)}
+    return r
+
+
+# ---------------------------------------------------------------------------------------------
+# R-REG-DISTINCT (C17): an operation's register parameters receive distinct registers
+
+def rule_reg_distinct(cx, tier):
+    r = RuleResult("R-REG-DISTINCT",
+                   "wherever koto_runtime calls a KotoVm method with two or more register (`u8`) parameters, the arguments "
+                   "are different registers (different locals, or different elements of a `next_registers()` array): an "
+                   "operand register passed twice means another operand never reaches the operation (sibling evidence: "
+                   "all other call sites pass distinct registers)")
+    def resolve(fn, du, l, depth=0):
+        if 1 <= l <= fn.argc or depth > 10:
+            return ("l", l)
+        d = du.single_def(l)
+        if d is None or d[2] != "assign" or d[3][0] != "use":
+            return ("l", l)
+        pl = op_place(d[3][1])
+        if pl is None:
+            return ("k", str(d[3][1]))
+        if pl[1]:
+            return ("p", pl[0], str(pl[1]))
+        return resolve(fn, du, pl[0], depth + 1)
+    n = 0
+    for fn in cx.F.fns.values():
+        if fn.crate.uname != "koto_runtime" or fn.derived:
+            continue
+        du = None
+        for c in fn.calls():
+            if not c.short.startswith(VM):
+                continue
+            idx = [i for i in range(len(c.args)) if (fn.crate.tstr(c.arg_ty(i)) or "") == "u8"]
+            if len(idx) < 2:
+                continue
+            du = du or cx.du(fn)
+            n += 1
+            r.instances += 1
+            roots = {}
+            for i in idx:
+                l = op_base(c.args[i])
+                if l is None:
+                    continue          # constants
+                roots.setdefault(resolve(fn, du, l), []).append(i)
+            dups = [v for k, v in roots.items() if len(v) > 1 and k[0] != "k"]
+            if dups:
+                r.nontrivial += 1
+                callee = c.short[len(VM):]
+                r.add(Finding("R-REG-DISTINCT", fn.qual, f"{callee}:args{dups[0]}",
+                              f"{callee} is called with the same register for its parameters #{dups[0][0]} and #{dups[0][1]}: "
+                              f"one operand is used twice and another never reaches the operation", fn.file, c.line))
+    r.floor("KotoVm calls with two or more register arguments", n, 50)
+    r.analysed = {"calls_with_several_register_arguments": n}
+    return r
+
+
+# ---------------------------------------------------------------------------------------------
+# backward slice helper (flow-insensitive): the locals and place fields a value derives from
+
+def _backward_slice(fn, du, start, stop=()):
+    """`stop`: last path segments of calls that the slice records but does not look behind"""
+    from ..mir import rv_places
+    seen = set()
+    fields = set()
+    calls = []
+    work = [start]
+    while work:
+        l = work.pop()
+        if l in seen:
+            continue
+        seen.add(l)
+        for d in du.defs.get(l, []):
+            if d[2] in ("assign", "partial") and not hasattr(d[3], "args"):
+                for pl in rv_places(d[3]):
+                    fields.update(place_fields(pl))
+                    work.append(pl[0])
+            else:
+                c = d[3]
+                calls.append(c)
+                if (c.pretty or c.short or "").rsplit("::", 1)[-1].split("<")[0] in stop:
+                    continue
+                for a in c.args:
+                    pl = op_place(a)
+                    if pl is not None:
+                        fields.update(place_fields(pl))
+                        work.append(pl[0])
+    return seen, fields, calls
+
+
+# ---------------------------------------------------------------------------------------------
+# R-MODULE-CANON (C18): the module cache key is a canonical path
+
+def rule_module_canon(cx, tier):
+    r = RuleResult("R-MODULE-CANON",
+                   "the path `find_module` returns is the module's key in the module cache, and module names may contain "
+                   "relative components (`import '../c'`): every non-error value written to the return place derives from "
+                   "a `canonicalize` call, so one file has one key and its top level runs once")
+    fn = cx.need_fn("koto_bytecode::module_loader::find_module")
+    du = cx.du(fn)
+    from .compiler import ret_class_of_block
+    n = 0
+    for b in fn.blocks:
+        if b.cleanup:
+            continue
+        cls = ret_class_of_block(cx, fn, b.idx)
+        if cls != "ok":
+            continue
+        # the value written to _0 in this block
+        srcs = []
+        for st in b.stmts:
+            if st[0] == "a" and st[1][0] == 0 and not st[1][1]:
+                from ..mir import rv_places
+                srcs += [pl[0] for pl in rv_places(st[2])]
+        c = fn.call_at(b.idx)
+        if c is not None and c.dest[0] == 0:
+            srcs += [op_place(a)[0] for a in c.args if op_place(a) is not None]
+        n += 1
+        r.instances += 1
+        r.nontrivial += 1
+        canon = False
+        for s0 in srcs:
+            # canonicalize has to come after the module name was joined on: the (canonical) search folder behind the
+            # join does not count
+            _, _, calls = _backward_slice(fn, du, s0, stop=("join", "with_extension", "push", "set_extension"))
+            if any((cc.pretty or cc.short or "").rsplit("::", 1)[-1].startswith("canonicalize") for cc in calls):
+                canon = True
+        r.sample({"line": line_of(fn, b.idx), "from_canonicalize": canon})
+        if not canon:
+            r.add(Finding("R-MODULE-CANON", fn.qual, "ok-return-not-canonical",
+                          "find_module returns a path that did not pass through canonicalize: the same file reached through "
+                          "a different relative name gets a second cache entry and its top level runs again",
+                          fn.file, line_of(fn, b.idx)))
+    r.floor("non-error returns of find_module", n, 2)
+    r.analysed = {"ok_returns": n}
+    return r
+
+
+# ---------------------------------------------------------------------------------------------
+# R-EXPORT-ID (C18): an imported item is exported under the id it was bound to
+
+def rule_export_id(cx, tier):
+    r = RuleResult("R-EXPORT-ID",
+                   "in `compile_import`, the id a value is exported under depends on the same parts of the ImportItem as the "
+                   "id its local register was assigned under: when the local's id can come from `item.name` (the `as` "
+                   "alias), so can the exported id -- otherwise `import x as y` binds `y` but exports `x`")
+    COMP = "koto_bytecode::Compiler::"
+    fn = cx.need_fn(COMP + "compile_import")
+    du = cx.du(fn)
+    ITEM_FIELDS = {"name", "item"}
+    n = 0
+    for c in fn.calls():
+        if c.short != COMP + "compile_value_export" or len(c.args) < 3:
+            continue
+        n += 1
+        r.instances += 1
+        r.nontrivial += 1
+        id_l = op_base(c.args[1])
+        reg_l = op_base(c.args[2])
+        _, e_fields, _ = _backward_slice(fn, du, id_l) if id_l is not None else (None, set(), None)
+        _, _, reg_calls = _backward_slice(fn, du, reg_l) if reg_l is not None else (None, None, [])
+        a_fields = set()
+        binders = 0
+        for rc in reg_calls:
+            if rc.short in (COMP + "assign_local_register", COMP + "reserve_local_register") and len(rc.args) > 1:
+                binders += 1
+                l = op_base(rc.args[1])
+                if l is not None:
+                    a_fields |= _backward_slice(fn, du, l)[1]
+        need = (a_fields & ITEM_FIELDS) - (e_fields & ITEM_FIELDS)
+        r.sample({"line": c.line, "bound_from": sorted(a_fields & ITEM_FIELDS), "exported_from": sorted(e_fields & ITEM_FIELDS),
+                  "binders": binders})
+        if need:
+            r.add(Finding("R-EXPORT-ID", fn.qual, "export-id-ignores:" + ",".join(sorted(need)),
+                          f"the local register is assigned under an id that can come from ImportItem.{'/'.join(sorted(need))} "
+                          f"but the exported id never does: with export_top_level_ids, `import x as y` binds `y` and "
+                          f"exports `x`", fn.file, c.line))
+    r.floor("export sites in compile_import", n, 2)
+    r.analysed = {"export_sites": n}
     return r
